@@ -122,6 +122,10 @@ SITES = [
         '{for(size_ti=0;i<groups_.size();++i){constautoaid=toIndexPartial(groups_[i],A,a);rews_[i]=arms_[i].sampleR(aid);}returnrews_;}': None}),
     ('flattenedBanditSampleR', 'include/AIToolbox/Factored/Bandit/FlattenedModel.hpp', r'FlattenedModel<Dist>::sampleR\s*\(\s*size_t\s+a\s*\)\s*const\s*\{', {
         '{toFactors(model_.getA(),a,&helper_);returnmodel_.sampleR(helper_).sum();}': None}),
+    ('coopMlSampleSR', 'src/Factored/MDP/CooperativeMaximumLikelihoodModel.cpp', r'double\s+CooperativeMaximumLikelihoodModel::sampleSR\s*\(\s*const\s+State\s*&\s*s\s*,\s*const\s+Action\s*&\s*a\s*,\s*State\s*\*\s*s1p\s*\)\s*const\s*\{', {
+        '{assert(s1p);constauto&S=experience_.getS();auto&tProbs=transitions_.transitions;State&s1=*s1p;for(size_ti=0;i<S.size();++i){constautoj=experience_.getGraph().getId(i,s,a);s1[i]=sampleProbability(S[i],tProbs[i].row(j),rand_);}returngetExpectedReward(s,a,s1);}': None}),
+    ('coopMlSampleSRs', 'src/Factored/MDP/CooperativeMaximumLikelihoodModel.cpp', r'void\s+CooperativeMaximumLikelihoodModel::sampleSRs\s*\(\s*const\s+State\s*&\s*s\s*,\s*const\s+Action\s*&\s*a\s*,\s*State\s*\*\s*s1p\s*,\s*Rewards\s*\*\s*rews\s*\)\s*const\s*\{', {
+        '{assert(s1p);assert(rews);constauto&S=experience_.getS();auto&tProbs=transitions_.transitions;State&s1=*s1p;for(size_ti=0;i<S.size();++i){constautoj=experience_.getGraph().getId(i,s,a);s1[i]=sampleProbability(S[i],tProbs[i].row(j),rand_);}getExpectedRewards(s,a,s1,rews);}': None}),
     ('toFactors', 'src/Factored/Utils/Core.cpp', r'void\s+toFactors\s*\(\s*const\s+Factors\s*&\s*space\s*,\s*size_t\s+id\s*,\s*Factors\s*\*\s*out\s*\)\s*\{', {
         '{assert(out);auto&f=*out;for(size_ti=0;i<space.size();++i){f[i]=id%space[i];id/=space[i];}}': None}),
 ]
